@@ -100,6 +100,28 @@ def theorems_of(prop):
     return out
 
 
+def theorems_at(build_log):
+    """the theorems (or definitions) that enclose the positions a build log reports errors at: `Cinco/…/X.lean:LINE:COL: error` ->
+    the nearest `theorem` / `def` / `example` heading above LINE in that file"""
+    out = []
+    for m in re.finditer(r"(Cinco/[\w/]+\.lean):(\d+):\d+:", "\n".join(ln for ln in build_log.splitlines() if "error" in ln)):
+        path, line = os.path.join(LEANDIR, m.group(1)), int(m.group(2))
+        try:
+            src = open(path, encoding="utf-8").read().splitlines()
+        except OSError:
+            continue
+        name = None
+        for ln in reversed(src[:line]):
+            h = re.match(r"^\s*(?:@\[[^\]]*\]\s*)?(?:protected\s+|private\s+)?(theorem|def|example|instance|lemma)\s*([^\s:({\[]*)", ln)
+            if h:
+                name = (h.group(2) or "<%s>" % h.group(1))
+                break
+        entry = "%s:%d %s" % (m.group(1), line, name or "?")
+        if entry not in out:
+            out.append(entry)
+    return out[:8]
+
+
 def audit(prop, timeout=600):
     """#print axioms for every theorem of Props/<prop>.lean (and its continuation) -> {name: [axioms]} (None = did not check)"""
     names = theorems_of(prop)
